@@ -27,6 +27,9 @@ DECIDES = ('G3: every generator that redirects the error/return/break/continue l
 DECIDES += (' EXCVARS (rules/excown.py): a code generator that does not install code.funcstate.exc_vars itself (bare raise, except* helpers) never emits code that zeroes or clears '
             'the exception variables of the enclosing except / finally clause - the handler body can run on after a re-raise that a nested try catches, and a second bare raise or the '
             'clause\'s break / continue exit then reads them (who-may-write rule on the generators\' syntax tree).')
+DECIDES += (' C22-GUARD (seventh round, rules/pC22.py): the evaluator of C22-ROLE also follows the C text the generators emit (blocks, if / else / loop headers, brace-less if, '
+            '#if arms, per writer object) and records the emitted conditions open at every exception-state helper; __Pyx_ExceptionReset of a saved triple is emitted under exactly the '
+            'conditions under which __Pyx_ExceptionSave/Swap filled it (never `if (saved value)`: NULL/NULL/NULL is a state that has to be restored like any other).')
 NOT_DECIDED = ('implicit __context__ chaining (done by PyErr_SetObject / the exc_info save-restore helpers of Exceptions.c), reference counting of the cause, '
                'the run-time order of blocks; in which emitted segment (between placed labels) the saved exc_info must be restored — e.g. dropping the restore at except_end_label of '
                'TryExceptStatNode is not seen, the emitted control flow is not modelled; the loop condition of __Pyx_PyErr_GetTopmostException (copied from CPython); the except* runtime '
@@ -52,6 +55,9 @@ MUTATIONS = [
     ('Cython/Compiler/ParseTreeTransforms.py', 'WithTransform: NotNode dropped; finally call test_if_run=False; pattern=[Exception]; Nodes.WithStatNode: __exit__/__aexit__ polarity', 'C22-WITH (4 variants)'),
     ('Cython/Utility/Exceptions.c', 'GetException keeps current_exception; ExceptionSwap stores *type as value / never writes *value; ExceptionReset writes curexc_*; Reraise reads tstate->exc_info; ErrFetch type/tb crossed', 'C22-STATE (6 variants)'),
     ('Cython/Compiler/Nodes.py', 'TryExceptStatNode: restore_saved_exception() at except_end_label dropped', 'MISSED (emitted control flow, see NOT_DECIDED)'),
+    # seventh round (mutants/C22/g7-*): seed C22j and 7 siblings
+    ('Cython/Compiler/Nodes.py', 'seed C22j: put_error_cleaner resets only `if (saved value) {`; same in put_error_uncatcher / restore_saved_exception (braces, brace-less, two putln, else arm, #if arm); swap under a condition', 'C22-GUARD (8 variants)'),
+    ('Cython/Compiler/Nodes.py', 'reset inside a plain block; giveref+reset extracted into a helper method (C22-ZERO now looks into inlined helpers); same #if on both sides; early-return style', 'silent'),
     # behaviour-preserving: all silent
     ('Cython/Compiler/Nodes.py', 'slices bound to well-named locals; six temps allocated as two tuples of three and concatenated; f-string emission of Save/Reset; funcstate restore written with inverted test', 'silent (G2 of rules/gen2.py fires on the concatenated tuples: shared rule, reported)'),
     ('Cython/Compiler/ParseTreeTransforms.py', 'WithTransform: sub-trees built in locals first, keyword order changed', 'silent'),
